@@ -28,6 +28,12 @@ pub struct Stats {
     pub faults: BTreeMap<String, u64>,
     /// rare-condition probes
     pub probes: BTreeMap<String, u64>,
+    /// C18: how often the panic injected at (site, k) actually fired
+    #[serde(default)]
+    pub crash_points_fired: BTreeMap<String, u64>,
+    /// C18: configured crash points that lay beyond what the run executed (did not fire)
+    #[serde(default)]
+    pub crash_points_not_reached: u64,
     pub lin_checked: u64,
     pub lin_states: u64,
     pub aborted_runs: u64,
@@ -103,7 +109,7 @@ impl Stats {
             .calls
             .iter()
             .filter(|c| {
-                matches!(&c.res, Res::Chunk { announced, items, .. } if items.len() < *announced)
+                matches!(&c.res, Res::Chunk { announced, items, skipped, .. } if items.len() + skipped < *announced)
             })
             .count() as u64;
         bump(&mut self.faults, "F4_chunk_abandoned", partial);
@@ -124,6 +130,17 @@ impl Stats {
             bump(&mut self.faults, &format!("F7_hint_{:?}", cfg.hint), 1);
         }
         bump(&mut self.faults, "F8_stale_load", s.stale_loads);
+        bump(
+            &mut self.faults,
+            "F4b_chunk_elements_skipped_with_nth",
+            rec.calls
+                .iter()
+                .map(|c| match &c.res {
+                    Res::Chunk { skipped, .. } => *skipped as u64,
+                    _ => 0,
+                })
+                .sum(),
+        );
         // probes
         bump(&mut self.probes, "thread_blocked_in_spin_loop", s.blocks);
         bump(&mut self.probes, "blocked_thread_woken", s.wakes);
@@ -146,6 +163,17 @@ impl Stats {
             "wrapped_next_called_after_none",
             rec.probe.calls_after_none as u64,
         );
+        if let Some((site, k)) = cfg.panic {
+            if rec.ledger.injected_panics > 0 {
+                bump(
+                    &mut self.crash_points_fired,
+                    &format!("{:?}:k={}:len={}", site, k, cfg.len),
+                    1,
+                );
+            } else {
+                self.crash_points_not_reached += 1;
+            }
+        }
         if let Some(v) = &rec.sim.verdict {
             match v {
                 Verdict::Deadlock(_) => bump(&mut self.probes, "deadlock_confirmed", 1),
@@ -204,6 +232,7 @@ impl Stats {
         self.lin_checked += o.lin_checked;
         self.lin_states += o.lin_states;
         self.aborted_runs += o.aborted_runs;
+        self.crash_points_not_reached += o.crash_points_not_reached;
         for (a, b) in [
             (&mut self.steps_hist, &o.steps_hist),
             (&mut self.by_kind, &o.by_kind),
@@ -214,6 +243,7 @@ impl Stats {
             (&mut self.by_terminal, &o.by_terminal),
             (&mut self.faults, &o.faults),
             (&mut self.probes, &o.probes),
+            (&mut self.crash_points_fired, &o.crash_points_fired),
             (
                 &mut self.other_property_observations,
                 &o.other_property_observations,
